@@ -4,6 +4,7 @@
 package shardh
 
 import (
+	"sync/atomic"
 	"bytes"
 	"context"
 	"encoding/binary"
@@ -35,6 +36,8 @@ import (
 type H struct {
 	Dir   string
 	Index string
+	// planAsked counts the compaction loop's questions to the planner
+	planAsked int64
 	// Mirror: a second shard of the database holds every series written (see New)
 	Mirror bool
 	Store *tsdb.Store
@@ -60,11 +63,17 @@ const (
 	MirrorTime    = int64(4102444800000000000) // 2100-01-01
 )
 
-type noPlanner struct{}
+// noPlanner plans nothing and counts how often the engine's compaction loop consults it
+type noPlanner struct{ asked *int64 }
 
-func (noPlanner) Plan(time.Time) []tsm1.CompactionGroup { return nil }
-func (noPlanner) PlanLevel(int) []tsm1.CompactionGroup  { return nil }
-func (noPlanner) PlanOptimize() []tsm1.CompactionGroup  { return nil }
+func (p noPlanner) note() {
+	if p.asked != nil {
+		atomic.AddInt64(p.asked, 1)
+	}
+}
+func (p noPlanner) Plan(time.Time) []tsm1.CompactionGroup { p.note(); return nil }
+func (p noPlanner) PlanLevel(int) []tsm1.CompactionGroup  { p.note(); return nil }
+func (p noPlanner) PlanOptimize() []tsm1.CompactionGroup  { p.note(); return nil }
 func (noPlanner) Release([]tsm1.CompactionGroup)        {}
 func (noPlanner) FullyCompacted() bool                  { return true }
 func (noPlanner) ForceFull()                            {}
@@ -145,7 +154,7 @@ func (h *H) quiet() {
 		return
 	}
 	e.SetCompactionsEnabled(false)
-	e.CompactionPlan = noPlanner{}
+	e.CompactionPlan = noPlanner{asked: &h.planAsked}
 	e.Compactor.EnableSnapshots()
 	e.Compactor.EnableCompactions()
 }
@@ -1235,6 +1244,39 @@ func (h *H) DeleteProbed(meas, pred string, lo, hi *int64) string {
 	}
 }
 
+// DeleteMonitored: a delete during which — after it has stopped the level compactions and
+// before its tombstones are committed — compactions are switched on again from outside, as the
+// store's monitor does every ten seconds for a shard that is written to (and a write to an
+// idle shard does). The request must not restart the compaction loop while the delete holds
+// it stopped: a compaction that read a file before the tombstone was committed would write
+// the deleted points into its output.
+func (h *H) DeleteMonitored(meas, pred string, lo, hi *int64) string {
+	e := h.Engine()
+	if e == nil {
+		return "err:no_engine"
+	}
+	g := h.Arm("delete.pending")
+	dres := make(chan string, 1)
+	go func() { dres <- h.DeleteB(meas, pred, lo, hi) }()
+	select {
+	case <-g.Reached:
+		before := atomic.LoadInt64(&h.planAsked)
+		e.SetCompactionsEnabled(true)
+		time.Sleep(1300 * time.Millisecond) // the compaction loop plans once a second
+		during := atomic.LoadInt64(&h.planAsked) - before
+		close(g.Release)
+		res := <-dres
+		h.quiet()
+		if during > 0 {
+			return fmt.Sprintf("COMPACTIONS-RESTARTED-DURING-DELETE the planner was consulted %d times while the delete held compactions stopped", during)
+		}
+		return res
+	case res := <-dres: // no file was touched
+		h.disarm("delete.pending")
+		return res
+	}
+}
+
 // SnapHold starts a cache snapshot and holds it after its file is written, before it is
 // installed; SnapRelease lets it finish.
 func (h *H) SnapHold() string {
@@ -1457,7 +1499,7 @@ func (h *H) Step(op string) (out string) {
 			return "err:" + strings.ReplaceAll(err.Error(), " ", "_")
 		}
 		return "ok"
-	case "del", "snapdel", "delprobe":
+	case "del", "snapdel", "delprobe", "delmon":
 		var lo, hi *int64
 		if f[3] != "-inf" {
 			v := i64(f[3])
@@ -1472,6 +1514,9 @@ func (h *H) Step(op string) (out string) {
 		}
 		if f[0] == "delprobe" {
 			return h.DeleteProbed(f[1], f[2], lo, hi)
+		}
+		if f[0] == "delmon" {
+			return h.DeleteMonitored(f[1], f[2], lo, hi)
 		}
 		return h.DeleteB(f[1], f[2], lo, hi)
 	case "dropm":
